@@ -285,7 +285,8 @@ def program_case(routes, prog, feature):
     if prog['cls']:
         cls = getattr(mod, prog['cls'])
         orig = getattr(cls, prog['entry'])
-        mk_args = lambda a: [cls()] + list(a)
+        inst_cls = getattr(mod, prog.get('inst') or prog['cls'])     # the method may be called on a subclass instance
+        mk_args = lambda a: [inst_cls()] + list(a)
     else:
         orig = getattr(mod, prog['entry'])
         mk_args = lambda a: list(a)
@@ -627,7 +628,7 @@ def _check(run, routes, only_case):
                 seen_specs.add(key)
                 # all routes on a slice, overload_of on everything
                 vias = VIAS if (li % (7 if quick else 3) == wi % (7 if quick else 3)) else ['overload_of']
-                if b == 'print' and quick and (li + wi) % 3:
+                if b == 'print' and quick and (li + wi) % 3 and not label.startswith('falsy'):
                     continue
                 for via in vias:
                     case = {'kind': 'direct', 'builtin': b, 'way': [list(way[0]), [list(x) for x in way[1]]], 'values': sub,
@@ -690,7 +691,7 @@ def _check(run, routes, only_case):
             jobs.append((prog, feature))
     stale_lines, stale_expect = [], []
     for (prog, feature), (what, det, recs) in zip(jobs, run_program_jobs(routes, jobs)):
-        run.case(('program', prog['call'], tuple(prog['nest']), prog.get('wrap'), feature), True)
+        run.case(('program', prog['call'], tuple(prog['nest']), prog.get('wrap'), prog.get('inst'), feature), True)
         if 'writes' in det:
             stale_lines.append('c14.class.stale %s %s' % (sexp(list(prog.get('needs', []))), sexp([[n, b, d] for n, b, d in det['writes']])))
             stale_expect.append(sexp(stale_read_py(prog)))
